@@ -280,3 +280,40 @@ func VerifC04_NearMiss(cs int) {
 	VsReach("near-miss-parsed")
 	VsAssert("undocumented-form-is-invalid", !dr.IsValid())
 }
+
+// VerifC04_RangeEnds: ranges whose second date lies inside the period that the first one names (a
+// month and a day of it, a year and a month of it, with and without keywords), or whose dates are
+// written the later one first: each end is the date that was written at that end. Only the day is
+// symbolic (1..28), so that comparisons of the fractional-year values stay cheap. cs%5: the form.
+func VerifC04_RangeEnds(cs int) {
+	d := VsInt("day", 1, 28)
+	day := VsDecimal(d, 1)
+	type end struct {
+		day, month, year int
+		constraint       DateConstraint
+	}
+	var text string
+	var s, e end
+	switch cs % 5 {
+	case 0:
+		text, s, e = "Bet. Mar 1900 and "+day+" Mar 1900", end{0, 3, 1900, DateConstraintExact}, end{d, 3, 1900, DateConstraintExact}
+	case 1:
+		text, s, e = "between 1900 and "+day+" Jun 1900", end{0, 0, 1900, DateConstraintExact}, end{d, 6, 1900, DateConstraintExact}
+	case 2:
+		text, s, e = "from abt 1850 to bef. "+day+" Feb 1850", end{0, 0, 1850, DateConstraintAbout}, end{d, 2, 1850, DateConstraintBefore}
+	case 3:
+		text, s, e = "Bet. "+day+" Mar 1900 and Mar 1900", end{d, 3, 1900, DateConstraintExact}, end{0, 3, 1900, DateConstraintExact}
+	default:
+		text, s, e = "Bet. "+day+" Dec 1950 and Aft. "+day+" Jan 1900", end{d, 12, 1950, DateConstraintExact}, end{d, 1, 1900, DateConstraintAfter}
+	}
+	dr := NewDateRangeWithString(text)
+	VsObserve(text)
+	VsReach("range-ends-parsed")
+	VsAssert("range-ends-valid", dr.IsValid())
+	got := dr.StartDate()
+	VsAssert("range-start-is-the-first-date-written", VsAll(got.Day == s.day, int(got.Month) == s.month, got.Year == s.year, got.Constraint == s.constraint))
+	got = dr.EndDate()
+	VsAssert("range-end-is-the-second-date-written", VsAll(got.Day == e.day, int(got.Month) == e.month, got.Year == e.year, got.Constraint == e.constraint))
+	again := NewDateRangeWithString(dr.String())
+	VsAssert("range-ends-survive-printing", VsAnd(again.StartDate().Is(dr.StartDate()), again.EndDate().Is(dr.EndDate())))
+}
